@@ -1,6 +1,6 @@
 (* Dispatcher: one case = list of integers, first the kind. *)
 From Coq Require Import ZArith List.
-From RRTK Require Import Num.Num Num.B32 Model.Values Model.Prog Model.Wire Model.WireStreams Model.WireSettable.
+From RRTK Require Import Num.Num Num.B32 Model.Values Model.Prog Model.Wire Model.WireStreams Model.WireSettable Model.WireMP.
 Import ListNotations.
 Local Open Scope Z_scope.
 
@@ -10,5 +10,6 @@ Definition run_case (l : list Z) : list Z :=
   | 3 :: r => run_comb_case r
   | 4 :: r => run_strm_case r
   | 5 :: r => run_sett_case r
+  | 6 :: r => run_mp_case r
   | _ => [W_BAD]
   end.
